@@ -1416,7 +1416,7 @@ M('C06', "combine_legs (single block) reshapes with order='A' (round-5 seed b)",
   'RESHAPE-C-order')
 
 M('C07', 'from_Bflat decides on canonicalisation from the input shapes (round-5 seed a)', 'tenpy/networks/mps.py',
-  "        if res.L > 1 and max(res.chi) > 1:", "        if res.L > 1 and max(B.shape[2] for B in Bflat[:-1]) > 1:",
+  "        if (res.L > 1 or res.bc == 'infinite') and max(res.chi) > 1:", "        if (res.L > 1 or res.bc == 'infinite') and max(B.shape[2] for B in Bflat[:-1]) > 1:",
   'FORM-canonicalize-all-bonds')
 
 M('C09', '_term_to_ops_list asks the unshifted site for the JW decision (round-5 seed a)', 'tenpy/networks/mps.py',
@@ -1530,6 +1530,10 @@ M('C11', "original defect: from_Wflat permutes only the leg p of the W tensors",
 M('C11', 'from_Wflat permutes both legs with np.ix_ (twin)', 'tenpy/networks/mpo.py',
   "                W = W[site.perm, :, :, :][:, site.perm, :, :]  # both physical legs 'p' and 'p*'", "                W = W[np.ix_(site.perm, site.perm)]",
   None, expect='silent')
+
+M('C07', 'original defect: from_Bflat never canonicalises a one-site unit cell', 'tenpy/networks/mps.py',
+  "        if (res.L > 1 or res.bc == 'infinite') and max(res.chi) > 1:", "        if res.L > 1 and max(res.chi) > 1:",
+  'FORM-canonicalize-all-bonds')
 
 # ---------------------------------------------------------------- C16 / C19
 M('C16', 'GMRES restart: relative residual norm used for normalisation (round-3 seed b)', KRY,
